@@ -236,12 +236,12 @@ mod verif_graph {
     }
 
     // recursion bound = members + 2 frames: the repaired code needs members + 1
-    // @h name=graph_cycvisit_self tier=thorough kind=bounded_termination timeout=7200 mem=24 props=C08 role=self+look-up
+    // @h name=graph_cycvisit_self tier=quick kind=bounded_termination cap=1 timeout=600 props=C08 role=an+asset+that+looks+itself+up
     #[kani::proof]
     #[kani::unwind(3)]
     fn graph_cycvisit_self() { cyc_direct(1, false); kani::cover!(true); }
 
-    // @h name=graph_cycvisit_two tier=thorough kind=bounded_termination timeout=7200 mem=24 props=C08 role=look-up+cycle+A<->B
+    // @h name=graph_cycvisit_two tier=thorough kind=bounded_termination cap=2 timeout=7200 mem=32 props=C08 role=two+assets+that+look+each+other+up
     #[kani::proof]
     #[kani::unwind(4)]
     fn graph_cycvisit_two() { cyc_direct(0, false); kani::cover!(true); }
